@@ -1,8 +1,12 @@
 #!/bin/sh
-# MANIFEST.setup_cmd: offline; warms the verus start-up cache and pre-builds the kani / replay crates if present
+# MANIFEST.setup_cmd: offline; warms the verus start-up cache and pre-builds the kani / replay crates
 cd "$(dirname "$0")"
-mkdir -p build evidence
+mkdir -p build evidence build/replay
 export CARGO_NET_OFFLINE=true
 printf 'use vstd::prelude::*;\nverus!{ proof fn warm() ensures 1 + 1 == 2int {} }\nfn main(){}\n' > build/warm.rs
 (cd build && verus warm.rs >/dev/null 2>&1 || true)
+# replay crate (real rsdd code, hooks on)
+(cd replay && RUSTFLAGS='--cfg rsdd_verif' CARGO_TARGET_DIR=../build/replay-target cargo build --release --offline >/dev/null 2>&1 || echo "setup: replay crate build failed (checks rebuild it on demand)")
+# kani crate: compile the harnesses once (verification happens in the checks)
+(cd kani && CARGO_TARGET_DIR=../build/kani-target timeout 900 cargo kani --only-codegen -Z function-contracts -Z stubbing >/dev/null 2>&1 || true)
 exit 0
